@@ -65,8 +65,8 @@ Section JoinSched.
   Proof.
     destruct o; cbn [exec fst]; try (left; reflexivity).
     - unfold l_update_device_state. destruct (ds_row st); cbn; now left.
-    - unfold l_advance_fup. destruct (ds_row st) as [r|]; [destruct (d_fup r <=? accepted)|]; cbn; now left.
-    - unfold l_next_fdn. destruct (ds_row st); cbn; now left.
+    - unfold l_advance_fup. destruct (ds_row st) as [r|]; [destruct ((d_fup r <=? accepted) && bytes_eqb (d_nwkskey r) key)|]; cbn; now left.
+    - unfold l_next_fdn. destruct (ds_row st) as [r|]; [destruct (negb (bytes_eqb (d_nwkskey r) key))|]; cbn; now left.
     - unfold l_create_upstream. destruct (existsb _ (ds_inbox st)); cbn; now left.
     - unfold l_get_phy. destruct (ds_fb st); [|cbn; now left]. destruct (_ && _ && _); [cbn; now left|].
       destruct (0 <? _)%nat; [|cbn; now left]. destruct (max_payload datr); [|cbn; now left]. destruct (_ <? _)%nat; cbn; now left.
@@ -81,8 +81,8 @@ Section JoinSched.
   Proof.
     intros H. destruct o; cbn [exec snd]; try reflexivity.
     - now destruct (l_update_device_state st dev).
-    - now destruct (l_advance_fup st accepted newfup kw).
-    - now destruct (l_next_fdn st).
+    - now destruct (l_advance_fup st key accepted newfup kw).
+    - now destruct (l_next_fdn st key).
     - now destruct (l_create_upstream st m).
     - now destruct (l_get_phy st datr).
     - exfalso. eapply H. reflexivity.
